@@ -20,6 +20,10 @@ def opi (s : Stack) : List (Option Nat × Bool) × List (Tid × TaskSt) :=
 @[simp] theorem opi_with_findLog (s : Stack) (x : List (Nat × Nat)) : opi { s with findLog := x } = opi s := rfl
 @[simp] theorem opi_with_findMarks (s : Stack) (x : List (Nat × Nat)) : opi { s with findMarks := x } = opi s := rfl
 @[simp] theorem opi_with_ansLog (s : Stack) (x : List (Nat × Addr × Nat × Nat)) : opi { s with ansLog := x } = opi s := rfl
+@[simp] theorem opi_with_lisLog (s : Stack) (x : List (LId × Bool × SvcKey × Addr)) : opi { s with lisLog := x } = opi s := rfl
+@[simp] theorem opi_logLis (s : Stack) (id : LId) (o : Bool) (k : SvcKey) (a : Addr) : opi (s.logLis id o k a) = opi s := rfl
+@[simp] theorem opi_with_lisDup (s : Stack) (x : Bool) : opi { s with lisDup := x } = opi s := rfl
+@[simp] theorem opi_markDup (s : Stack) (d : Bool) : opi (s.markDup d) = opi s := rfl
 @[simp] theorem opi_logAnswer (s : Stack) (i : Nat) (a : Addr) (d : Nat) : opi (s.logAnswer i a d) = opi s := rfl
 @[simp] theorem opi_markFind (s : Stack) (n : Nat) : opi (s.markFind n) = opi s := rfl
 @[simp] theorem opi_with_offLog (s : Stack) (x : List (Nat × OEv × Nat)) : opi { s with offLog := x } = opi s := rfl
@@ -190,13 +194,13 @@ theorem opi_stepSubscribe (s : Stack) (tid : Tid) (t : TaskSt) (h : isOfferK tid
   rw [foldl_pres opi _ (fun s p => by frame_cases)]
 
 @[simp] theorem opi_watchService (s : Stack) (f : Service) (l : Listener) : opi (s.watchService f l) = opi s := by
-  unfold watchService; simp only []; rw [opi_replay]; rfl
+  unfold watchService; simp only []; rw [opi_markDup, opi_replay]; rfl
 @[simp] theorem opi_stopWatchService (s : Stack) (f : Service) (l : Listener) : opi (s.stopWatchService f l) = opi s := by
   unfold stopWatchService; simp only []; split
   · simp
   · rw [opi_replay]; rfl
 @[simp] theorem opi_watchAllServices (s : Stack) (id : LId) : opi (s.watchAllServices id) = opi s := by
-  unfold watchAllServices; rw [opi_replay]; rfl
+  unfold watchAllServices; rw [opi_markDup, opi_replay]; rfl
 @[simp] theorem opi_stopWatchAllServices (s : Stack) (id : LId) : opi (s.stopWatchAllServices id) = opi s := by
   unfold stopWatchAllServices; split
   · simp
